@@ -1905,22 +1905,46 @@ def r_contraction_result_reduces(prog: Program, col: Collector, refs: Refs, cat:
             if V in deps:
                 col.ok(construct, f"the result depends on `{V}`", f.loc(ret), nontrivial=False)
                 continue
-            guard_nodes = [a for a in f.module.ancestors(ret) if isinstance(a, ast.If) and f.module.enclosing_function(a) is f.node]
-            guard_nodes += [a for a in walk_no_nested(f.node) if isinstance(a, ast.Assert) and a.lineno < ret.lineno]
-            # an `if` one of whose branches always leaves guards the statements that follow it in its block (early-exit spelling)
+            # facts known on the way to the return: atoms of the tests that hold / fail there.  A conjunction that holds gives its
+            # conjuncts, a disjunction that fails gives the negations of its disjuncts; a failed conjunction gives nothing.
+            def atoms(t, pol):
+                if isinstance(t, ast.UnaryOp) and isinstance(t.op, ast.Not):
+                    return atoms(t.operand, not pol)
+                if isinstance(t, ast.BoolOp):
+                    if isinstance(t.op, ast.And) == pol:
+                        return [x for v_ in t.values for x in atoms(v_, pol)]
+                    return []
+                # an equality that FAILS (`red_op is not X`) says nothing about whether something is reduced; an equality that holds,
+                # a membership that holds, and the truth or falsity of a plain value (`reduced_vars`, `x.input_vars & reduced_vars`) do
+                if isinstance(t, ast.Compare) and len(t.ops) == 1:
+                    positive_op = isinstance(t.ops[0], (ast.Is, ast.Eq, ast.In, ast.LtE, ast.GtE, ast.Lt, ast.Gt))
+                    if isinstance(t.ops[0], (ast.Is, ast.Eq, ast.In, ast.IsNot, ast.NotEq, ast.NotIn)) and positive_op != pol:
+                        return []
+                return [t]
+            exits = (ast.Return, ast.Raise, ast.Continue, ast.Break)
+            facts = []  # (atom, statement at which it is evaluated)
             for a in walk_no_nested(f.node):
-                if not isinstance(a, ast.If) or a in guard_nodes:
+                if isinstance(a, ast.Assert) and a.lineno < ret.lineno:
+                    facts += [(x, a) for x in atoms(a.test, True)]
+                if not isinstance(a, ast.If):
                     continue
-                if not any(b and isinstance(b[-1], (ast.Return, ast.Raise, ast.Continue, ast.Break)) for b in (a.body, a.orelse)):
-                    continue
-                par = f.module.parent.get(a)
-                for fld in ("body", "orelse", "finalbody"):
-                    blk = getattr(par, fld, None)
-                    if isinstance(blk, list) and any(x is a for x in blk):
-                        k = [j for j, x in enumerate(blk) if x is a][0]
-                        if any(ret is y for st in blk[k + 1:] for y in ast.walk(st)):
-                            guard_nodes.append(a)
-            established = any({R, V} & param_deps(f, g.test, g, cfg=cfg) for g in guard_nodes)
+                inside = lambda blk: any(ret is y for st in blk for y in ast.walk(st))
+                if inside(a.body):
+                    facts += [(x, a) for x in atoms(a.test, True)]
+                elif inside(a.orelse):
+                    facts += [(x, a) for x in atoms(a.test, False)]
+                else:
+                    par = f.module.parent.get(a)
+                    for fld in ("body", "orelse", "finalbody"):
+                        blk = getattr(par, fld, None)
+                        if isinstance(blk, list) and any(x is a for x in blk):
+                            k = [j for j, x in enumerate(blk) if x is a][0]
+                            if inside(blk[k + 1:]):
+                                if a.body and isinstance(a.body[-1], exits):
+                                    facts += [(x, a) for x in atoms(a.test, False)]
+                                elif a.orelse and isinstance(a.orelse[-1], exits):
+                                    facts += [(x, a) for x in atoms(a.test, True)]
+            established = any({R, V} & param_deps(f, x, at, cfg=cfg) for x, at in facts)
             col.check(established, construct, f"returned under a test on `{R}` / `{V}` (nothing is reduced there)",
                       f"`{norm(ret.value)[:60]}` does not depend on `{V}` and is not guarded by any test on `{R}` or `{V}`: the reduction over `{V}` is dropped, so the reduced "
                       "variables stay free in the rewritten term", f.loc(ret))
